@@ -1,3 +1,4 @@
+import Agd.Model.ConnLimit
 /-!
 # Model of the start-up configuration validation of AdGuard DNS (`internal/cmd`)
 
@@ -42,6 +43,9 @@ inductive F
   | ddrDev | ddrDevHttps | ddrPub | ddrPubHttps
   | cc | ac
   | ilList | ilPort0 | ilPort1
+  -- third wave: cross-references, server protocols
+  | sgFgRef | fg0Id | fg1Id | fg2Id | fg0List0 | bi0Id
+  | sgProto1 | sgProto2 | sgProto3 | sgDc1 | sgDc2 | sgDc3
   deriving DecidableEq, Repr
 
 def F.name : F → String
@@ -101,15 +105,23 @@ def F.name : F → String
   | .ilList => "interface_listeners.list"
   | .ilPort0 => "interface_listeners.list.eth0_plain_dns.port"
   | .ilPort1 => "interface_listeners.list.eth0_plain_dns_secondary.port"
+  | .sgFgRef => "server_groups.0.filtering_group"
+  | .fg0Id => "filtering_groups.0.id" | .fg1Id => "filtering_groups.1.id" | .fg2Id => "filtering_groups.2.id"
+  | .fg0List0 => "filtering_groups.0.rule_lists.0"
+  | .bi0Id => "server_groups.0.servers.0.bind_interfaces.0.id"
+  | .sgProto1 => "server_groups.0.servers.1.protocol" | .sgProto2 => "server_groups.0.servers.2.protocol"
+  | .sgProto3 => "server_groups.0.servers.3.protocol"
+  | .sgDc1 => "server_groups.0.servers.1.dnscrypt" | .sgDc2 => "server_groups.0.servers.2.dnscrypt"
+  | .sgDc3 => "server_groups.0.servers.3.dnscrypt"
 
 /-- What the error message says about the property. -/
-inductive Kind | notPositive | negative | range | enum | noValue | cross | empty | allZero
+inductive Kind | notPositive | negative | range | enum | noValue | cross | empty | allZero | dup | badId
   deriving DecidableEq, Repr
 
 def Kind.name : Kind → String
   | .notPositive => "notpositive" | .negative => "negative" | .range => "range"
   | .enum => "enum" | .noValue => "novalue" | .cross => "cross"
-  | .empty => "empty" | .allZero => "allzero"
+  | .empty => "empty" | .allZero => "allzero" | .dup => "dup" | .badId => "badid"
 
 abbrev Err := F × Kind
 
@@ -253,6 +265,14 @@ structure Config where
   pIlList : Bool := true
   ilPort0 : Int := 53
   ilPort1 : Int := 5353
+  -- third wave: cross-references and the protocols of the servers with `bind_addresses`
+  sgFg : String := "default"                 -- server_groups.0.filtering_group
+  fg0Id : String := "default"                -- filtering_groups.0.id (1: "family", 2: "non_filtering")
+  fg0List0 : String := "adguard_dns_filter"  -- filtering_groups.0.rule_lists.ids.0
+  bi0Id : String := "eth0_plain_dns"         -- server_groups.0.servers.0.bind_interfaces.0.id
+  proto1 : String := "tls"                   -- servers 1, 2 (one address each), 3 (two addresses)
+  proto2 : String := "https"
+  proto3 : String := "quic"
 
 /-- The distributed example. -/
 def dist : Config := {}
@@ -375,10 +395,19 @@ def valCheck (c : Config) : List Err :=
 
 def valQueryLog (c : Config) : List Err := sect c.pQl .ql [ sect c.pQlFile .qlFile [] ]
 
-/-- `filteringGroups.validate` as far as the first group's sub-sections go. -/
+/-- `filter.NewID`: 1…128 printable non-blank ASCII characters without a slash (the harness only
+produces identifiers of such characters, so emptiness is what can go wrong). -/
+def badListId (s : String) : Bool := s = ""
+
+/-- `filteringGroups.validate`: the sub-sections, the identifier and the first rule-list identifier of
+the first group, then the uniqueness of the identifiers of the three distributed groups. -/
 def valFltGroups (c : Config) : List Err :=
   firstOf [ missing c.pFg .fg,
-            sect c.pFg0Par .fg0Par [], sect c.pFg0Rl .fg0Rl [], sect c.pFg0Sb .fg0Sb [] ]
+            sect c.pFg0Par .fg0Par [], sect c.pFg0Rl .fg0Rl [], sect c.pFg0Sb .fg0Sb [],
+            (if c.fg0Id = "" then [(.fg0Id, .empty)] else []),
+            (if badListId c.fg0List0 then [(.fg0List0, .badId)] else []),
+            (if c.fg0Id = "family" then [(.fg1Id, .dup)] else []),
+            (if c.fg0Id = "non_filtering" then [(.fg2Id, .dup)] else []) ]
 
 /-- `ddrRecord.validatePorts`. -/
 def valPorts (fRec fHttps : F) (https quic tls : Int) : List Err :=
@@ -386,14 +415,49 @@ def valPorts (fRec fHttps : F) (https quic tls : Int) : List Err :=
   else if https = 0 ∧ quic = 0 ∧ tls = 0 then [(fRec, .allZero)]
   else []
 
-/-- `serverGroups.validate` for the single distributed group: DDR records, the server list, TLS. -/
+def knownProto (p : String) : Bool :=
+  p = "dns" ∨ p = "dnscrypt" ∨ p = "https" ∨ p = "quic" ∨ p = "tls"
+
+/-- `serverProto.needsTLS`. -/
+def protoNeedsTls (p : String) : Bool := p = "https" ∨ p = "quic" ∨ p = "tls"
+
+/-- `server.validate` for a server with `bind_addresses` and no `dnscrypt` section. -/
+def valSrvProto (fp fd : F) (p : String) : List Err :=
+  if ¬ knownProto p then [(fp, .enum)] else if p = "dnscrypt" then [(fd, .cross)] else []
+
+/-- `servers.validate` also reports whether a TLS section is needed (servers 0, 4 and 5 are plain DNS
+and DNSCrypt). -/
+def needsTls (c : Config) : Bool :=
+  protoNeedsTls c.proto1 || protoNeedsTls c.proto2 || protoNeedsTls c.proto3
+
+/-- `tlsConfig.validate needsTLS`: required exactly when some server needs it. -/
+def valTls (c : Config) : List Err :=
+  if needsTls c then sect c.pTls .sgTls [] else if c.pTls then [(.sgTls, .cross)] else []
+
+/-- `serverGroups.validate` for the single distributed group: the filtering-group reference, DDR
+records, the server list (bind data of server 0, protocols of servers 1–3), TLS. -/
 def valSrvGroups (c : Config) : List Err :=
   firstOf [ missing c.pSg .sg,
+            (if c.sgFg = "" then [(.sgFgRef, .empty)] else []),
             sect c.pDdr .sgDdr
               [ valPorts .ddrDev .ddrDevHttps c.devHttps c.devQuic c.devTls,
                 valPorts .ddrPub .ddrPubHttps c.pubHttps c.pubQuic c.pubTls ],
             missing c.pSrvs .sgSrvs,
-            sect c.pTls .sgTls [] ]
+            (if c.bi0Id = "" then [(.bi0Id, .empty)] else []),
+            valSrvProto .sgProto1 .sgDc1 c.proto1,
+            valSrvProto .sgProto2 .sgDc2 c.proto2,
+            valSrvProto .sgProto3 .sgDc3 c.proto3,
+            valTls c ]
+
+/-- `serverGroups.streamAddrNum`: the addresses on which stream connections are accepted — two
+interface subnets of server 0, servers 1–3 unless DNS-over-QUIC, the two DNSCrypt servers. -/
+def streamN (c : Config) : Int :=
+  2 + (if c.proto1 = "quic" then 0 else 1) + (if c.proto2 = "quic" then 0 else 1) +
+    (if c.proto3 = "quic" then 0 else 2) + 2
+
+/-- `configuration.validateConnLimit` (absent on the tree as found). -/
+def valConnN (legacy : Bool) (c : Config) : List Err :=
+  if legacy ∨ ¬ c.clEnabled then [] else if c.clResume < streamN c then [(.rlClResume, .range)] else []
 
 def valConnCheck (c : Config) : List Err := sect c.pCc .cc []
 def valAccess (c : Config) : List Err := sect c.pAc .ac []
@@ -433,7 +497,7 @@ def validate (legacy : Bool) (c : Config) : List Err :=
       valSb c.pSb .sb .sbSize .sbTtl .sbRefresh .sbTimeout c.sbSize c.sbTtl c.sbRefresh c.sbTimeout,
       valSb c.pAb .ab .abSize .abTtl .abRefresh .abTimeout c.abSize c.abTtl c.abRefresh c.abTimeout,
       valFilters legacy c, valFltGroups c, valSrvGroups c, valConnCheck c, valIface c, valNetwork c,
-      valAccess c ]
+      valAccess c, valConnN legacy c ]
 
 /-! ## Documented constraints (the specification side) -/
 
@@ -448,7 +512,7 @@ def violates (c : Config) : F → Bool
   | .rlAlType => !(c.alType = "backend" ∨ c.alType = "consul")
   | .rlAlRefresh => c.alRefresh ≤ 0
   | .rlClStop => c.clEnabled && c.clStop ≤ 0
-  | .rlClResume => c.clEnabled && (c.clResume ≤ 0 || c.clResume > c.clStop)
+  | .rlClResume => c.clEnabled && (c.clResume ≤ 0 || c.clResume > c.clStop || c.clResume < streamN c)
   | .rlV4Count => c.v4Count ≤ 0 | .rlV4Ivl => c.v4Ivl ≤ 0
   | .rlV4Len => c.v4Len ≤ 0 || c.v4Len > 32
   | .rlV6Count => c.v6Count ≤ 0 | .rlV6Ivl => c.v6Ivl ≤ 0
@@ -490,7 +554,8 @@ def violates (c : Config) : F → Bool
   | .ql => !c.pQl | .qlFile => !c.pQlFile
   | .ckLoc => c.ckLoc = "" | .ckName => c.ckName = ""
   | .fg => !c.pFg | .fg0Par => !c.pFg0Par | .fg0Rl => !c.pFg0Rl | .fg0Sb => !c.pFg0Sb
-  | .sg => !c.pSg | .sgDdr => !c.pDdr | .sgSrvs => !c.pSrvs | .sgTls => !c.pTls
+  | .sg => !c.pSg | .sgDdr => !c.pDdr | .sgSrvs => !c.pSrvs
+  | .sgTls => if needsTls c then !c.pTls else c.pTls
   | .ddrDev => c.devHttps = 0 && c.devQuic = 0 && c.devTls = 0
   | .ddrDevHttps => c.devHttps ≠ 0 && c.devHttps = c.devTls
   | .ddrPub => c.pubHttps = 0 && c.pubQuic = 0 && c.pubTls = 0
@@ -499,6 +564,12 @@ def violates (c : Config) : F → Bool
   | .ilList => c.pIl && !c.pIlList
   | .ilPort0 => c.pIl && c.ilPort0 = 0
   | .ilPort1 => c.pIl && c.ilPort1 = 0
+  | .sgFgRef => c.sgFg = ""
+  | .fg0Id => c.fg0Id = "" | .fg1Id => c.fg0Id = "family" | .fg2Id => c.fg0Id = "non_filtering"
+  | .fg0List0 => badListId c.fg0List0
+  | .bi0Id => c.bi0Id = ""
+  | .sgProto1 => !knownProto c.proto1 | .sgProto2 => !knownProto c.proto2 | .sgProto3 => !knownProto c.proto3
+  | .sgDc1 => c.proto1 = "dnscrypt" | .sgDc2 => c.proto2 = "dnscrypt" | .sgDc3 => c.proto3 = "dnscrypt"
 
 /-! ## The consumers: constructors run at start-up and the per-query code -/
 
@@ -616,6 +687,53 @@ structure Safe (c : Config) : Prop where
   ddrDev : ¬ (c.devHttps = 0 ∧ c.devQuic = 0 ∧ c.devTls = 0) ∧ (c.devHttps ≠ 0 → c.devHttps ≠ c.devTls)
   ddrPub : ¬ (c.pubHttps = 0 ∧ c.pubQuic = 0 ∧ c.pubTls = 0) ∧ (c.pubHttps ≠ 0 → c.pubHttps ≠ c.pubTls)
   hcTmpl : c.hcEnabled = true → c.hcTmpl ≠ ""
+  connN : c.clEnabled = true → streamN c ≤ c.clResume
+
+/-! ## Cross-references resolved by the conversions, and the stream listeners -/
+
+/-- The start-up errors of the `toInternal` conversions that resolve cross-references. -/
+inductive XErr
+  | dupPort        -- `bindtodevice.Manager.Add`: two interface listeners on one device and port
+  | unknownList    -- `filteringGroups.toInternal`: rule-list id not in the filter index
+  | unknownFg      -- `serverGroups.toInternal`: `filtering_group` names no filtering group
+  | noIface        -- `server.bindData`: `bind_interfaces` without `interface_listeners`
+  | unknownIface   -- `Manager.ListenConfig`: `bind_interfaces.*.id` names no interface listener
+  | dupBind        -- `connIndex.addListener`: the same subnet bound twice on one interface listener
+  deriving DecidableEq, Repr
+
+def XErr.name : XErr → String
+  | .dupPort => "interface_listeners:duplicate-port"
+  | .unknownList => "filtering_groups:unknown-list"
+  | .unknownFg => "server_groups:unknown-filtering-group"
+  | .noIface => "server_groups:no-interface-listeners"
+  | .unknownIface => "server_groups:unknown-interface"
+  | .dupBind => "server_groups:duplicate-bind"
+
+/-- The identifier of the only rule list in the filter index the harness offers. -/
+def indexListId : String := "adguard_dns_filter"
+
+/-- `interfaceListenersConfig.toInternal`, `filteringGroups.toInternal`, `serverGroups.toInternal` in
+the builder's order; the answer is the number of stream listeners of the converted servers. -/
+def xconv (c : Config) : Except XErr Int :=
+  if c.pIl ∧ c.ilPort0 = c.ilPort1 then .error .dupPort
+  else if c.fg0List0 ≠ indexListId then .error .unknownList
+  else if ¬ (c.sgFg = c.fg0Id ∨ c.sgFg = "family" ∨ c.sgFg = "non_filtering") then .error .unknownFg
+  else if ¬ c.pIl then .error .noIface
+  else if ¬ (c.bi0Id = "eth0_plain_dns" ∨ c.bi0Id = "eth0_plain_dns_secondary") then .error .unknownIface
+  else if c.bi0Id = "eth0_plain_dns_secondary" then .error .dupBind
+  else .ok (streamN c)
+
+/-- One goroutine per stream listener calls `Accept` on the fresh limiter (C18's model of
+`limitListener`): how many reach the underlying `Accept`, how many are parked. -/
+def limStart (stop resume n : Nat) : Nat × Nat :=
+  let s := ConnLimit.run ConnLimit.repaired (ConnLimit.init stop resume)
+    ((List.range n).map ConnLimit.Op.accept)
+  (s.pending.length, s.waitq.length)
+
+/-- The listeners of the configured servers right after start-up. -/
+def startListeners (c : Config) : Nat × Nat :=
+  if c.clEnabled then limStart c.clStop.toNat c.clResume.toNat (streamN c).toNat
+  else ((streamN c).toNat, 0)
 
 /-! ## Parsing stage (YAML → typed value) -/
 
